@@ -39,7 +39,7 @@ PROP = {
         "x/assets/keeper/operator_asset.go IterateAssetsForOperator, x/dogfood/keeper/impl_sdk.go SlashWithInfractionReason "
         "(hand-written Gallina transcription, tied by differential execution)",
         "oracle prices are inputs of the model and the monitor: resolved by the harness itself (asset id -> token by comma-split + equality over the stored oracle params, latest round "
-        "from the price store, default 1 when absent / non-positive), not through GetSpecifiedAssetsPrice; asset decimals from GetStakingAssetInfo",
+        "from the price store, default 1 when absent / non-positive), not through GetSpecifiedAssetsPrice; asset decimals from the harness's own decode of the stored StakingAssetInfo",
         "identities (operator, asset, staker, AVS, record key) are mapped to integers by the harness; every field of an undelegation record other than "
         "ActualCompletedAmount is compared through a 48-bit fingerprint of its protobuf encoding",
         "not modelled: the 256-bit Int / 315-bit LegacyDec overflow panics (generated amounts stay below 2^120), int64 range of Power",
